@@ -317,4 +317,84 @@ theorem C05_line_sourceFile (value : Bytes) (h : (Line.sourceFile value).WF) (ta
   simp only [parseHeader, stripPrefix_append, e1, litQuoteBrace, stripPrefix, beq_self_eq_true, if_true,
     Line.toRecord]
 
+/-! ### iterator / error-family helpers -/
+
+theorem tailOK_of_newlines (nls : Bytes) (hn : ∀ b ∈ nls, isNewline b = true) : TailOK nls := by
+  cases nls with
+  | nil => exact Or.inl rfl
+  | cons b r => exact Or.inr ⟨b, r, rfl, hn b (by simp)⟩
+
+theorem tailOK_append (nls r : Bytes) (h0 : nls ≠ []) (hn : ∀ b ∈ nls, isNewline b = true) :
+    TailOK (nls ++ r) := by
+  cases nls with
+  | nil => exact absurd rfl h0
+  | cons b t => exact Or.inr ⟨b, t ++ r, rfl, hn b (by simp)⟩
+
+/-- a printed line is non-empty and does not start with a line terminator -/
+theorem print_head (a : Line) (h : a.WF) : ∃ b r, a.print = b :: r ∧ isNewline b = false := by
+  cases a with
+  | cls orig obf =>
+    obtain ⟨⟨_, hn1⟩, _⟩ := h
+    cases orig with
+    | nil => exact ⟨32, _, by simp [Line.print, litArrow]; rfl, by decide⟩
+    | cons b o => exact ⟨b, _, by simp [Line.print]; rfl, hn1 b (by simp)⟩
+  | field ty name obf => exact ⟨32, _, by simp [Line.print, litIndent]; rfl, by decide⟩
+  | method range ty fc name args orig obf => exact ⟨32, _, by simp [Line.print, litIndent]; rfl, by decide⟩
+  | headerKV key value => exact ⟨35, _, by simp [Line.print]; rfl, by decide⟩
+  | headerKey key => exact ⟨35, _, by simp [Line.print]; rfl, by decide⟩
+  | sourceFile value => exact ⟨35, _, by simp [Line.print]; rfl, by decide⟩
+
+theorem consumeNewlines_print (a : Line) (h : a.WF) (t : Bytes) :
+    consumeNewlines (a.print ++ t) = a.print ++ t := by
+  obtain ⟨b, r, e, hb⟩ := print_head a h
+  rw [e, List.cons_append, consumeNewlines_cons _ _ hb]
+
+theorem recordsFuel_nil (n : Nat) : recordsFuel n [] = [] := by
+  cases n <;> simp [recordsFuel]
+
+theorem parseRecord_class_err (bad tail : Bytes) (hb : ∀ b ∈ bad, isNewline b = false) (ht : TailOK tail)
+    (hd : consumeNewlines (bad ++ tail) = bad ++ tail ∧ startsWith (bad ++ tail) [35] = false ∧
+      startsWith (bad ++ tail) litIndent = false)
+    (hpc : parseClass (bad ++ tail) = none) :
+    parseRecord (bad ++ tail) = (.err (bad ++ tail.take 1), tail.drop 1) := by
+  rw [parseRecord_class _ hd.1 hd.2.1 hd.2.2, hpc, splitLine_bad bad tail hb ht.headSat]
+
+theorem parseRecord_member_err (bad tail : Bytes) (hb : ∀ b ∈ bad, isNewline b = false) (ht : TailOK tail)
+    (hd : consumeNewlines (bad ++ tail) = bad ++ tail ∧ startsWith (bad ++ tail) [35] = false ∧
+      startsWith (bad ++ tail) litIndent = true)
+    (hpc : parseMember (bad ++ tail) = none) :
+    parseRecord (bad ++ tail) = (.err (bad ++ tail.take 1), tail.drop 1) := by
+  rw [parseRecord_member _ hd.1 hd.2.1 hd.2.2, hpc, splitLine_bad bad tail hb ht.headSat]
+
+/-- without the UTF-8 hypothesis: error, or the component and its delimiter -/
+theorem pUNN_delim (p : UInt8 → Bool) (a : Bytes) (d : UInt8) (r : Bytes)
+    (hn : ∀ b ∈ a, isNewline b = false) (ha : ∀ b ∈ a, p b = false)
+    (hd : p d = true) (hdn : isNewline d = false) (x : Bytes × Bytes)
+    (h : parseUntilNoNewline p (a ++ d :: r) = some x) : x = (a, d :: r) := by
+  by_cases hu : validUtf8 a = true
+  · rw [pUNN_ok p a d r hu hn ha hd hdn] at h
+    cases h; rfl
+  · exfalso
+    unfold parseUntilNoNewline parseUntil at h
+    rw [spanUntil_append _ a (d :: r) (by intro b hb; simp [hn b hb, ha b hb])
+      (HeadSat.cons _ _ _ (by simp [hd]))] at h
+    simp [hu] at h
+
+theorem all_append {P : UInt8 → Prop} {a c : Bytes} (ha : ∀ b ∈ a, P b) (hc : ∀ b ∈ c, P b) :
+    ∀ b ∈ a ++ c, P b := by
+  intro b hb
+  rcases List.mem_append.1 hb with h | h
+  · exact ha b h
+  · exact hc b h
+
+theorem stripPrefix_arrowTail (obf tail : Bytes) (h : stripPrefix [45, 62, 32] obf = none)
+    (ht : HeadSat isNewline tail) : stripPrefix [45, 62, 32] (obf ++ tail) = none := by
+  rcases tail with _ | ⟨nl, t⟩
+  · simpa using h
+  · rcases isNewline_cases nl (ht nl rfl) with rfl | rfl <;>
+    rcases obf with _ | ⟨o0, _ | ⟨o1, _ | ⟨o2, obf⟩⟩⟩ <;>
+      simp_all [stripPrefix]
+
+theorem str_of_decide (s : Bytes) (h : validUtf8 s = true ∧ ∀ b ∈ s, isNewline b = false) : Str s := h
+
 end PG
